@@ -1,3 +1,484 @@
-/- Property theorems for C11 (stub: not built yet). -/
+/-
+C11  Elementary forecasters compute the textbook forecast they document.
+Property theorems about SkVerif/Model/Naive.lean and SkVerif/Model/Trend.lean against the independently written
+SkVerif/Spec/Naive.lean.  Only theorems + non-vacuity examples here; proofs of the heavier steps are in Lemmas/.
+
+Conventions: a series is `y : Int → Option Rat` on integer time labels (`none` = NaN); `T` = cutoff; `window y T w` =
+the observations at `T-w+1 … T`; horizons are sorted lists of steps (which every constructed horizon is, C02).
+All theorems quantify over every series, cutoff, seasonal period, window length and horizon.
+
+Three clauses do NOT hold at full strength for the code as it is (known findings, see findings/C11.md); for each the
+full statement is kept in the comment, the proved theorem is `…_partial`, and a second theorem proves the negation
+at a concrete witness:
+  (F1) seasonal mean, `window_length % sp ≠ 0`: the window is padded at the END, seasons are aligned with the window start;
+  (F2) seasonal mean, in-sample step whose window is cut by the start of the series: reshape raises;
+  (F3) drift, in-sample step whose window is cut by the start of the series: slope divided by `window_length_ - 1`.
+-/
+import SkVerif.Lemmas.Naive
+import SkVerif.Lemmas.NaiveTop
+import SkVerif.Lemmas.Trend
 namespace SkVerif.C11
+open SkVerif SkVerif.Naive SkVerif.Lem.Naive
+open SkVerif.Spec.Naive (window windowTimes meanOf sameSeason NormalEqs sse powers)
+
+/-- strictly increasing (every constructed horizon is: C02 `mk_sorted_nodup`) -/
+abbrev Sorted (l : List Int) : Prop := l.Pairwise (· < ·)
+
+/-- a handy series for witnesses: `y(t) = t` -/
+def ramp : Int → Val := fun t => some (t : Rat)
+/-- `y(t) = t²` -/
+def squares : Int → Val := fun t => some ((t * t : Int) : Rat)
+
+/-! ## `_predict_last_window` = textbook, per strategy (out-of-sample steps `h ≥ 1`) -/
+
+/-- last value: `ŷ(T+h) = y(T)` (NaN when it is missing) -/
+theorem last_eq_spec (y : Int → Val) (T : Int) (fh : List Int) :
+    predictLastWindow .last 1 1 (window y T 1) fh = .ok (fh.map (Spec.Naive.last y T)) := by
+  have hw : window y T 1 = [y T] := by simp [window, windowTimes]
+  have hl : Spec.Naive.last y T = fun _ => y T := rfl
+  rw [hw, hl]
+  cases hy : y T with
+  | none => simp [predictLastWindow, allNaN]
+  | some v => simp [predictLastWindow, allNaN]
+
+example : predictLastWindow .last 1 1 (window ramp 9 1) [1, 4] = .ok [some 9, some 9] := by decide +kernel
+
+/-- seasonal last value: `ŷ(T+h) = y(T + h − sp·⌈h/sp⌉)`, for every period, every horizon (beyond one season too) -/
+theorem seasonal_last_eq_spec (y : Int → Val) (T : Int) (sp : Nat) (hsp : 2 ≤ sp) (fh : List Int)
+    (hs : Sorted fh) (hpos : ∀ h ∈ fh, 1 ≤ h) :
+    predictLastWindow .last sp sp (window y T sp) fh = .ok (fh.map (Spec.Naive.seasonalLast y T sp)) := by
+  have hsp0 : 0 < sp := by omega
+  have hidx : ∀ h : Int, ((h - 1) % (sp : Int)).toNat < sp := by
+    intro h
+    have := Int.emod_lt_of_pos (h - 1) (show (0 : Int) < sp by exact_mod_cast hsp0)
+    have := Int.emod_nonneg (h - 1) (show (sp : Int) ≠ 0 by omega)
+    omega
+  have hval : ∀ h : Int, (window y T sp)[((h - 1) % (sp : Int)).toNat]? = some (Spec.Naive.seasonalLast y T sp h) := by
+    intro h
+    rw [window_getElem? y T sp _ (hidx h)]
+    unfold Spec.Naive.seasonalLast
+    rw [seasonalLast_index T h sp hsp0]
+    have := Int.emod_nonneg (h - 1) (show (sp : Int) ≠ 0 by omega)
+    rw [Int.toNat_of_nonneg this]
+  unfold predictLastWindow
+  by_cases hall : allNaN (window y T sp) = true
+  · simp only [hall, Bool.true_or, ↓reduceIte]
+    congr 1
+    apply List.map_congr_left
+    intro h _
+    exact ((allNaN_iff _).mp hall _ (List.mem_of_getElem? (hval h))).symm
+  · have hsp1 : ¬ (sp = 1) := by omega
+    simp only [hall, isEmpty_false_of_not_allNaN _ hall, Bool.or_self, Bool.false_eq_true, ↓reduceIte, hsp1]
+    apply mapE_ok
+    intro h hh
+    exact npGet_tileIfNeeded _ sp (window_length y T sp) hsp0 _ h (hpos h hh) (le_getLast fh hs h hh) _ (hval h)
+
+example : predictLastWindow .last 3 3 (window ramp 9 3) [1, 2, 3, 4, 8] = .ok [some 7, some 8, some 9, some 7, some 8] := by
+  decide +kernel
+example : Sorted [1, 2, 3, 4, 8] ∧ ∀ h ∈ [1, 2, 3, 4, (8 : Int)], 1 ≤ h := by decide
+
+/-- mean: the mean of the non-missing observations of the window (NaN when all are missing), any window length -/
+theorem mean_eq_spec (y : Int → Val) (T : Int) (wl L : Nat) (fh : List Int) :
+    predictLastWindow .mean 1 wl (window y T L) fh = .ok (fh.map (Spec.Naive.mean y T L)) := by
+  unfold predictLastWindow Spec.Naive.mean
+  by_cases hall : allNaN (window y T L) = true
+  · simp only [hall, Bool.true_or, ↓reduceIte]
+    rw [meanOf_of_allNone _ ((allNaN_iff _).mp hall)]
+  · simp only [hall, isEmpty_false_of_not_allNaN _ hall, Bool.or_self, Bool.false_eq_true, ↓reduceIte,
+      nanmean_eq_meanOf]
+
+example : predictLastWindow .mean 1 4 (window ramp 9 4) [1, 5] = .ok [some (15 / 2), some (15 / 2)] := by decide +kernel
+
+/-- FULL STATEMENT (F1; does not hold for the code as it is, see `seasonal_mean_misaligned`):
+    ∀ wl ≥ sp, predictLastWindow .mean sp wl (window y T wl) fh = .ok (fh.map (seasonalMean y T wl sp)).
+Proved when the window holds whole seasons (`wl = rows · sp`): the forecast for step `h` is the mean of the non-missing
+window observations at times `≡ T + h (mod sp)`. -/
+theorem seasonal_mean_eq_spec_partial (y : Int → Val) (T : Int) (sp rows : Nat) (hsp : 2 ≤ sp)
+    (fh : List Int) (hs : Sorted fh) (hpos : ∀ h ∈ fh, 1 ≤ h) :
+    predictLastWindow .mean sp (rows * sp) (window y T (rows * sp)) fh
+      = .ok (fh.map (Spec.Naive.seasonalMean y T (rows * sp) sp)) := by
+  have hsp0 : 0 < sp := by omega
+  unfold predictLastWindow Spec.Naive.seasonalMean
+  by_cases hall : allNaN (window y T (rows * sp)) = true
+  · simp only [hall, Bool.true_or, ↓reduceIte]
+    congr 1
+    apply List.map_congr_left
+    intro h _
+    symm
+    apply meanOf_of_allNone
+    intro v hv
+    rw [sameSeason_column y T h rows sp hsp0] at hv
+    simp only [column, List.mem_map, List.mem_range] at hv
+    obtain ⟨r, _, rfl⟩ := hv
+    cases hg : (window y T (rows * sp))[r * sp + ((h - 1) % (sp : Int)).toNat]? with
+    | none => rfl
+    | some v' =>
+      simp
+      exact (allNaN_iff _).mp hall _ (List.mem_of_getElem? hg)
+  · have hsp1 : ¬ (sp = 1) := by omega
+    have hrem : rows * sp % sp = 0 := Nat.mul_mod_left rows sp
+    have hrows' : (rows * sp + sp - 1) / sp = rows := by
+      have : rows * sp + sp - 1 = (sp - 1) + rows * sp := by omega
+      rw [this, Nat.add_mul_div_right _ _ hsp0, Nat.div_eq_of_lt (by omega)]; omega
+    simp only [hall, isEmpty_false_of_not_allNaN _ hall, Bool.or_self, Bool.false_eq_true, ↓reduceIte, hsp1,
+      hrem, Nat.lt_irrefl, List.replicate_zero, List.append_nil, hrows', window_length, ne_eq, not_true_eq_false]
+    apply mapE_ok
+    intro h hh
+    have hk : ((h - 1) % (sp : Int)).toNat < sp := by
+      have := Int.emod_lt_of_pos (h - 1) (show (0 : Int) < sp by exact_mod_cast hsp0)
+      have := Int.emod_nonneg (h - 1) (show (sp : Int) ≠ 0 by omega)
+      omega
+    apply npGet_tileIfNeeded _ sp (by simp) hsp0 _ h (hpos h hh) (le_getLast fh hs h hh)
+    rw [List.getElem?_map, List.getElem?_range hk]
+    simp only [Option.map_some]
+    rw [nanmean_eq_meanOf, sameSeason_column y T h rows sp hsp0]
+
+example : predictLastWindow .mean 3 (2 * 3) (window ramp 19 (2 * 3)) [1, 2, 3, 7]
+    = .ok [some (31 / 2), some (33 / 2), some (35 / 2), some (31 / 2)] := by decide +kernel
+
+/-- (F1) negation of the full statement at a witness: `y = 0 … 19`, `sp = 3`, `window_length = 7`, `h = 1`:
+the code forecasts 16 (mean of 13, 16, 19: the season of the window START), the textbook value is 31/2 (mean of 14, 17). -/
+theorem seasonal_mean_misaligned :
+    predictLastWindow .mean 3 7 (window ramp 19 7) [1] = .ok [some 16] ∧
+    Spec.Naive.seasonalMean ramp 19 7 3 1 = some (31 / 2) ∧
+    predictLastWindow .mean 3 7 (window ramp 19 7) [1] ≠ .ok ([1].map (Spec.Naive.seasonalMean ramp 19 7 3)) := by
+  refine ⟨by decide +kernel, by decide +kernel, by decide +kernel⟩
+
+/-- FULL STATEMENT (F1): "seasons are aligned with the end of the training series whatever the window length":
+    ∀ wl ≥ sp, two series that agree on the window times `≡ T + h (mod sp)` get the same forecast for step `h`.
+Proved for windows of whole seasons. -/
+theorem seasonal_alignment_any_window_partial (y y' : Int → Val) (T : Int) (sp rows : Nat) (hsp : 2 ≤ sp) (h : Int)
+    (h1 : 1 ≤ h)
+    (hagree : ∀ t ∈ windowTimes T (rows * sp), sameSeason T sp h t = true → y t = y' t) :
+    predictLastWindow .mean sp (rows * sp) (window y T (rows * sp)) [h]
+      = predictLastWindow .mean sp (rows * sp) (window y' T (rows * sp)) [h] := by
+  have hs : Sorted [h] := by simp [Sorted]
+  have hp : ∀ x ∈ [h], 1 ≤ x := by simp [h1]
+  rw [seasonal_mean_eq_spec_partial y T sp rows hsp [h] hs hp, seasonal_mean_eq_spec_partial y' T sp rows hsp [h] hs hp]
+  have hm : ((windowTimes T (rows * sp)).filter (sameSeason T sp h)).map y
+      = ((windowTimes T (rows * sp)).filter (sameSeason T sp h)).map y' := by
+    apply List.map_congr_left
+    intro t ht
+    rw [List.mem_filter] at ht
+    exact hagree t ht.1 ht.2
+  simp only [List.map_cons, List.map_nil, Spec.Naive.seasonalMean, hm]
+
+/-- (F1) negation at a witness: two series that differ only at time 13 (not the season of `T + 1 = 20`) get different
+forecasts for step 1 when `window_length = 7`, `sp = 3`. -/
+theorem seasonal_alignment_fails_witness :
+    (∀ t ∈ windowTimes 19 7, sameSeason 19 3 1 t = true → ramp t = (fun t => if t = 13 then some 100 else ramp t) t) ∧
+    predictLastWindow .mean 3 7 (window ramp 19 7) [1]
+      ≠ predictLastWindow .mean 3 7 (window (fun t => if t = 13 then some 100 else ramp t) 19 7) [1] := by
+  refine ⟨by decide +kernel, by decide +kernel⟩
+
+/-- drift: the straight line through the end points of the window, extrapolated `h` steps -/
+theorem drift_eq_spec (y : Int → Val) (T : Int) (wl : Nat) (hwl : 2 ≤ wl) (fh : List Int)
+    (hfirst : (y (T - (wl : Int) + 1)).isSome) (hlast : (y T).isSome) :
+    predictLastWindow .drift 1 wl (window y T wl) fh = .ok (fh.map (Spec.Naive.drift y T wl)) := by
+  obtain ⟨a, ha⟩ := Option.isSome_iff_exists.mp hfirst
+  obtain ⟨b, hb⟩ := Option.isSome_iff_exists.mp hlast
+  have hhead : (window y T wl).head? = some (some a) := by
+    rw [List.head?_eq_getElem?, window_getElem? y T wl 0 (by omega)]; simp [ha]
+  have hlst : (window y T wl).getLast? = some (some b) := by
+    rw [List.getLast?_eq_getElem?, window_length, window_getElem? y T wl (wl - 1) (by omega)]
+    have : T - (wl : Int) + 1 + ((wl - 1 : Nat) : Int) = T := by omega
+    rw [this, hb]
+  have hall : ¬ allNaN (window y T wl) = true := by
+    intro hc
+    have := (allNaN_iff _).mp hc (some b) (List.mem_of_getLast? hlst)
+    cases this
+  have hwl1 : ¬ (wl = 1) := by omega
+  unfold predictLastWindow
+  simp only [hall, isEmpty_false_of_not_allNaN _ hall, Bool.or_self, Bool.false_eq_true, ↓reduceIte, ne_eq, hwl1,
+    not_false_eq_true, hhead, hlst]
+  congr 1
+  apply List.map_congr_left
+  intro h _
+  simp [Spec.Naive.drift, ha, hb]
+
+example : predictLastWindow .drift 1 4 (window squares 4 4) [1, 2] = .ok [some 21, some 26] := by decide +kernel
+
+/-- drift raises when an end point of the window is missing (and the window is not all missing) -/
+theorem drift_rejects_missing_endpoint (y : Int → Val) (T : Int) (wl : Nat) (hwl : 2 ≤ wl) (fh : List Int)
+    (hmiss : y (T - (wl : Int) + 1) = none ∨ y T = none) (hsome : ¬ allNaN (window y T wl) = true) :
+    predictLastWindow .drift 1 wl (window y T wl) fh = .error .value := by
+  have hhead : (window y T wl).head? = some (y (T - (wl : Int) + 1)) := by
+    rw [List.head?_eq_getElem?, window_getElem? y T wl 0 (by omega)]; simp
+  have hlst : (window y T wl).getLast? = some (y T) := by
+    rw [List.getLast?_eq_getElem?, window_length, window_getElem? y T wl (wl - 1) (by omega)]
+    have : T - (wl : Int) + 1 + ((wl - 1 : Nat) : Int) = T := by omega
+    rw [this]
+  have hwl1 : ¬ (wl = 1) := by omega
+  unfold predictLastWindow
+  simp only [hsome, isEmpty_false_of_not_allNaN _ hsome, Bool.or_self, Bool.false_eq_true, ↓reduceIte, ne_eq, hwl1,
+    not_false_eq_true, hhead, hlst]
+  rcases hmiss with h | h
+  · rw [h]
+  · rw [h]; cases y (T - (wl : Int) + 1) <;> rfl
+
+/-! ## window-length resolution in `fit` -/
+
+theorem fit_window_resolution (n : Nat) (hn : 1 ≤ n) :
+    (∀ wl, fitWindow .last 1 wl n = .ok 1) ∧
+    (∀ (sp : Nat) wl, 2 ≤ sp → sp ≤ n → fitWindow .last sp wl n = .ok sp) ∧
+    (∀ (sp : Nat), 1 ≤ sp → fitWindow .mean sp none n = .ok n) ∧
+    (∀ (sp w : Nat), 1 ≤ sp → 1 ≤ w → w ≤ n → (sp = 1 ∨ sp ≤ w) → fitWindow .mean sp (some w) n = .ok w) ∧
+    (∀ sp, fitWindow .drift sp none n = .ok n) ∧
+    (∀ sp (w : Nat), 2 ≤ w → w ≤ n → fitWindow .drift sp (some w) n = .ok w) := by
+  have hn0 : ¬ (n = 0) := by omega
+  refine ⟨?_, ?_, ?_, ?_, ?_, ?_⟩
+  · intro wl
+    have : ¬ ((1 : Int) > (n : Int)) := by omega
+    simp [fitWindow, resolveWindow, hn0, this]
+  · intro sp wl h2 hle
+    have a : ¬ ((sp : Int) = 1) := by omega
+    have b : ¬ ((sp : Int) < 1) := by omega
+    have c : ¬ ((sp : Int) > (n : Int)) := by omega
+    simp [fitWindow, resolveWindow, hn0, a, b, c]
+  · intro sp h1
+    have b : ¬ ((sp : Int) < 1) := by omega
+    simp [fitWindow, resolveWindow, hn0, b]
+  · intro sp w h1 hw hle hor
+    have a : ¬ ((sp : Int) ≠ 1 ∧ (w : Int) < (sp : Int)) := by omega
+    have b : ¬ ((w : Int) < 1) := by omega
+    have c : ¬ ((sp : Int) < 1) := by omega
+    have d : ¬ ((w : Int) > (n : Int)) := by omega
+    simp only [fitWindow, resolveWindow, hn0, a, b, c, d, ↓reduceIte, Int.toNat_natCast]
+  · intro sp
+    simp [fitWindow, resolveWindow, hn0]
+  · intro sp w h2 hle
+    have b : ¬ ((w : Int) < 1) := by omega
+    have c : ¬ ((w : Int) = 1) := by omega
+    have d : ¬ ((w : Int) > (n : Int)) := by omega
+    simp only [fitWindow, resolveWindow, hn0, b, c, d, ↓reduceIte, Int.toNat_natCast]
+
+/-- configurations `fit` rejects -/
+theorem fit_rejects (n : Nat) :
+    (∀ sp wl, fitWindow .other sp wl n = .error .value) ∧
+    (∀ sp, fitWindow .drift sp (some 1) n = .error .value) ∧
+    (∀ (sp w : Int), sp ≠ 1 → w < sp → fitWindow .mean sp (some w) n = .error .value) ∧
+    (∀ st sp (w : Int), st ≠ .last → (n : Int) < w → fitWindow st sp (some w) n = .error .value) ∧
+    (∀ (sp : Int) wl, (n : Int) < sp → fitWindow .last sp wl n = .error .value) := by
+  refine ⟨?_, ?_, ?_, ?_, ?_⟩
+  · intro sp wl; unfold fitWindow resolveWindow; split <;> rfl
+  · intro sp; unfold fitWindow resolveWindow; split <;> simp
+  · intro sp w h1 h2
+    have : sp ≠ 1 ∧ w < sp := ⟨h1, h2⟩
+    unfold fitWindow resolveWindow; split
+    · rfl
+    · simp [this]
+  · intro st sp w hst hw
+    by_cases hn0 : n = 0
+    · simp [fitWindow, hn0]
+    cases st with
+    | last => exact absurd rfl hst
+    | other => simp [fitWindow, resolveWindow, hn0]
+    | mean =>
+      by_cases a : (sp ≠ 1 ∧ w < sp)
+      · simp [fitWindow, resolveWindow, hn0, a]
+      by_cases b : w < 1
+      · simp [fitWindow, resolveWindow, hn0, a, b]
+      by_cases c : sp < 1
+      · simp [fitWindow, resolveWindow, hn0, a, b, c]
+      simp only [fitWindow, resolveWindow, hn0, a, b, c, ↓reduceIte, gt_iff_lt, hw]
+    | drift =>
+      by_cases b : w < 1
+      · simp [fitWindow, resolveWindow, hn0, b]
+      by_cases c : w = 1
+      · simp [fitWindow, resolveWindow, hn0, c]
+      simp only [fitWindow, resolveWindow, hn0, b, c, ↓reduceIte, gt_iff_lt, hw]
+  · intro sp wl hsp
+    unfold fitWindow
+    split
+    · rfl
+    · rename_i hn0
+      have a : ¬ (sp = 1) := by omega
+      have b : ¬ (sp < 1) := by omega
+      simp [resolveWindow, a, b, hsp]
+
+/-! ## in-sample steps: one-step-ahead forecasts from a moved cutoff -/
+
+/-- `_predict_in_sample`: for sorted in-sample steps the moving-cutoff loop (splitter, `update`, label slicing) returns,
+for every step `s` (time `t = T + s`), the forecast `_predict_last_window` makes ONE step ahead from the window of
+the at most `wl` observations up to `t − 1`; before any observation the forecast is NaN. -/
+theorem insample_eq_one_step_ahead_spec (st : Strategy) (sp wl : Nat) (y : List Val) (origin : Int) (steps : List Int)
+    (hs : Sorted steps) (hne : steps ≠ []) (hle : ∀ s ∈ steps, s ≤ 0) :
+    predictInSample st sp wl y origin steps = mapE (fun s =>
+      let q := s + (y.length : Int) - 2
+      if q < 0 then .ok (origin, none)
+      else match predictLastWindow st sp wl (window (asFn y origin) (origin + q) (min wl (q.toNat + 1))) [1] with
+        | .error e => .error e
+        | .ok v => .ok (origin + q + 1, v.headD none)) steps := by
+  rw [predictInSample_eq st sp wl y origin steps hs hne hle]
+  apply mapE_congr
+  intro s hsm
+  have := hle s hsm
+  by_cases hq : s + (y.length : Int) - 2 < 0
+  · simp only [hq, ↓reduceIte]; exact oneStepAhead_before_start st sp wl y origin _ hq
+  · simp only [hq, ↓reduceIte]
+    exact oneStepAhead_eq st sp wl y origin _ (by omega) (by omega)
+
+example : predictInSample .mean 1 2 [some 0, some 1, some 4, some 9, some 16] 5 [-5, -4, -1, 0]
+    = .ok [(5, none), (5, none), (8, some (5 / 2)), (9, some (13 / 2))] := by decide +kernel
+
+/-- in-sample, last value: the forecast for time `t` is the observation at `t − 1` -/
+theorem insample_last_eq_spec (y : Int → Val) (c : Int) (k : Nat) :
+    predictLastWindow .last 1 1 (window y c (min 1 (k + 1))) [1] = .ok [y c] := by
+  have : min 1 (k + 1) = 1 := by omega
+  rw [this]; exact last_eq_spec y c [1]
+
+/-- in-sample, mean: the mean of the (at most `wl`) observations available up to `t − 1` -/
+theorem insample_mean_eq_spec (y : Int → Val) (c : Int) (wl k : Nat) :
+    predictLastWindow .mean 1 wl (window y c (min wl (k + 1))) [1] = .ok [meanOf (window y c (min wl (k + 1)))] :=
+  mean_eq_spec y c wl (min wl (k + 1)) [1]
+
+/-- FULL STATEMENT (F3; does not hold, see `insample_drift_truncated_witness`): for every number `k + 1 ≥ 2` of
+observations available, the in-sample drift forecast is the line through the end points of the `min wl (k+1)`
+observations in the window.  Proved when the window is not cut by the start of the series (`wl ≤ k + 1`). -/
+theorem insample_drift_eq_spec_partial (y : Int → Val) (c : Int) (wl k : Nat) (hwl : 2 ≤ wl) (hfull : wl ≤ k + 1)
+    (hfirst : (y (c - (wl : Int) + 1)).isSome) (hlast : (y c).isSome) :
+    predictLastWindow .drift 1 wl (window y c (min wl (k + 1))) [1] = .ok [Spec.Naive.drift y c wl 1] := by
+  have : min wl (k + 1) = wl := by omega
+  rw [this]; exact drift_eq_spec y c wl hwl [1] hfirst hlast
+
+/-- (F3) negation at a witness: `y = 0, 1, 4, 9, 16` (labels 0…4), `window_length_ = 5`, forecast for time 3 from the
+three observations 0, 1, 4: the code returns 4 + (4 − 0)/(5 − 1) = 5, the line through (0,0) and (2,4) gives 6. -/
+theorem insample_drift_truncated_witness :
+    predictLastWindow .drift 1 5 (window squares 2 (min 5 (2 + 1))) [1] = .ok [some 5] ∧
+    Spec.Naive.drift squares 2 (min 5 (2 + 1)) 1 = some 6 := by
+  refine ⟨by decide +kernel, by decide +kernel⟩
+
+/-- FULL STATEMENT (F2; does not hold, see `insample_seasonal_mean_raises_witness`): the in-sample seasonal-mean
+forecast is the mean of the same-season observations among the `min wl (k+1)` available.
+Proved when the window is whole (`wl = rows·sp ≤ k + 1`). -/
+theorem insample_seasonal_mean_eq_spec_partial (y : Int → Val) (c : Int) (sp rows k : Nat) (hsp : 2 ≤ sp)
+    (hfull : rows * sp ≤ k + 1) :
+    predictLastWindow .mean sp (rows * sp) (window y c (min (rows * sp) (k + 1))) [1]
+      = .ok [Spec.Naive.seasonalMean y c (rows * sp) sp 1] := by
+  have : min (rows * sp) (k + 1) = rows * sp := by omega
+  rw [this]
+  exact seasonal_mean_eq_spec_partial y c sp rows hsp [1] (by simp [Sorted]) (by simp)
+
+/-- (F2) negation at a witness: five observations, `sp = 2`, `window_length_ = 5` (the default: whole series), forecast
+for the last time point (step 0) from the four earlier observations: `reshape` raises ValueError although the same-season
+observations 0 and 4 (mean 2) are in the window. -/
+theorem insample_seasonal_mean_raises_witness :
+    predictLastWindow .mean 2 5 (window squares 3 (min 5 (3 + 1))) [1] = .error .value ∧
+    Spec.Naive.seasonalMean squares 3 (min 5 (3 + 1)) 2 1 = some 2 := by
+  refine ⟨by decide +kernel, by decide +kernel⟩
+
+/-- in-sample, seasonal last, once a whole season has been observed: the observation one season before `t` -/
+theorem insample_seasonal_last_eq_spec (y : Int → Val) (c : Int) (sp k : Nat) (hsp : 2 ≤ sp) (hfull : sp ≤ k + 1) :
+    predictLastWindow .last sp sp (window y c (min sp (k + 1))) [1] = .ok [y (c + 1 - (sp : Int))] := by
+  have : min sp (k + 1) = sp := by omega
+  rw [this, seasonal_last_eq_spec y c sp hsp [1] (by simp [Sorted]) (by simp)]
+  simp only [List.map_cons, List.map_nil, Spec.Naive.seasonalLast, Spec.Naive.seasonsBack]
+  have : ((1 : Int) + (sp : Int) - 1) / (sp : Int) = 1 := by
+    have : (1 : Int) + (sp : Int) - 1 = sp := by omega
+    rw [this]; exact Int.ediv_self (by omega)
+  rw [this]; congr 3; omega
+
+/-! ## `fit(y).predict(fh)` end to end -/
+
+/-- horizon handling of `predict`: sorted relative steps are split at 0 into the in-sample part (moving cutoff) and the
+out-of-sample part (fixed cutoff); results are concatenated in that order -/
+theorem predict_splits_horizon (st : Strategy) (sp : Int) (wl : Option Int) (y : List Val) (origin : Int) (fh : List Int)
+    (hs : Sorted fh) (hne : fh ≠ []) (w : Nat) (hfit : fitWindow st sp wl y.length = .ok w) :
+    fitPredict st sp wl y origin (.ints fh) true =
+      (let ins := fh.filter (fun v => decide (v ≤ 0))
+       let oos := fh.filter (fun v => decide (v > 0))
+       if ins.isEmpty then predictOut st sp.toNat w y origin oos
+       else if oos.isEmpty then predictInSample st sp.toNat w y origin ins
+       else (predictInSample st sp.toNat w y origin ins).bind (fun a =>
+              (predictOut st sp.toNat w y origin oos).bind (fun b => .ok (a ++ b)))) :=
+  fitPredict_rel st sp wl y origin fh hs hne w hfit
+
+/-- out-of-sample horizon: the forecasts are those of `_predict_last_window` on the last `window_length_` observations,
+labelled `T + h` -/
+theorem predict_out_of_sample (st : Strategy) (sp : Int) (wl : Option Int) (y : List Val) (origin : Int) (fh : List Int)
+    (hs : Sorted fh) (hne : fh ≠ []) (hpos : ∀ h ∈ fh, 1 ≤ h) (w : Nat)
+    (hfit : fitWindow st sp wl y.length = .ok w) :
+    fitPredict st sp wl y origin (.ints fh) true =
+      match predictLastWindow st sp.toNat w (window (asFn y origin) (origin + (y.length : Int) - 1) w) fh with
+      | .ok vs => .ok ((fh.map (origin + (y.length : Int) - 1 + ·)).zip vs)
+      | .error e => .error e :=
+  fitPredict_out_of_sample st sp wl y origin fh hs hne hpos w hfit
+
+/-- end to end: `NaiveForecaster("last", sp=sp).fit(y).predict(fh)` = seasonal naive forecasts `y(T+h−sp·⌈h/sp⌉)` at `T+h` -/
+theorem naive_seasonal_last_end_to_end (y : List Val) (origin : Int) (sp : Nat) (hsp : 2 ≤ sp) (hn : sp ≤ y.length)
+    (wl : Option Int) (fh : List Int) (hs : Sorted fh) (hne : fh ≠ []) (hpos : ∀ h ∈ fh, 1 ≤ h) :
+    fitPredict .last sp wl y origin (.ints fh) true =
+      .ok (fh.map (fun h => (origin + (y.length : Int) - 1 + h,
+        Spec.Naive.seasonalLast (asFn y origin) (origin + (y.length : Int) - 1) sp h))) := by
+  have hfit := (fit_window_resolution y.length (by omega)).2.1 sp wl hsp hn
+  rw [predict_out_of_sample .last sp wl y origin fh hs hne hpos sp hfit]
+  simp only [Int.toNat_natCast]
+  rw [seasonal_last_eq_spec _ _ sp hsp fh hs hpos]
+  simp only [List.zip_map']
+
+example : fitPredict .last 3 none [some 1, some 2, some 3, some 4, some 5] 10 (.ints [1, 2, 5]) true
+    = .ok [(15, some 3), (16, some 4), (19, some 4)] := by decide +kernel
+
+/-! ## polynomial trend -/
+
+/-- the regressor is fitted on the Vandermonde rows `t^lo … t^d` of `t = 0 … n−1` and asked at `t = n − 1 + h`
+(`lo = 0` with intercept, `1` without); forecasts are labelled `T + h` -/
+theorem trend_design_matrix_eq_spec (deg : Nat) (bias : Bool) (hv : ¬ (deg = 0 ∧ bias = false)) (n : Nat) (hn : 1 ≤ n)
+    (origin : Int) (fh : List Int) (hs : Sorted fh) (hne : fh ≠ []) :
+    Trend.designs deg bias n origin (.ints fh) true
+      = .ok ((List.range n).map (fun (i : Nat) => powers (if bias then 0 else 1) deg (i : Int)),
+             fh.map (fun h => powers (if bias then 0 else 1) deg ((n : Int) - 1 + h)),
+             fh.map (fun h => origin + (n : Int) - 1 + h)) :=
+  Lem.Trend.designs_rel deg bias hv n hn origin fh hs hne
+
+example : Trend.designs 2 true 3 5 (.ints [-1, 2]) true
+    = .ok ([[1, 0, 0], [1, 1, 1], [1, 2, 4]], [[1, 1, 1], [1, 4, 16]], [6, 9]) := by decide +kernel
+
+/-- degree 1 with intercept, `n ≥ 2`: the forecast at step `h` is `a + b·(n−1+h)` where `(a, b)` solves the normal
+equations of the straight-line fit on `t = 0 … n−1`, hence minimises the sum of squared residuals over all lines -/
+theorem trend_deg1_eq_ols (ys : List Rat) (hn : 2 ≤ ys.length) (origin : Int) (fh : List Int) (hs : Sorted fh) (hne : fh ≠ []) :
+    ∃ a b : Rat,
+      NormalEqs (Trend.points ys) a b ∧
+      (∀ a' b', sse (Trend.points ys) a b ≤ sse (Trend.points ys) a' b') ∧
+      Trend.fitPredict 1 true (ys.map some) origin (.ints fh) true
+        = .ok (fh.map (fun h => (origin + (ys.length : Int) - 1 + h, some (a + b * ((((ys.length : Int) - 1 + h : Int)) : Rat))))) := by
+  refine ⟨(Trend.olsCoef 1 true ys).1, (Trend.olsCoef 1 true ys).2, Lem.Trend.olsCoef_deg1_normal ys hn,
+    fun a' b' => Lem.Trend.sse_min_of_normal _ _ _ (Lem.Trend.olsCoef_deg1_normal ys hn) a' b', ?_⟩
+  exact Lem.Trend.trend_fitPredict_rel 1 true (by simp) ys (by omega) origin fh hs hne
+
+example : Trend.fitPredict 1 true [some 0, some 1, some 4, some 9, some 16] 5 (.ints [-5, 0, 2]) true
+    = .ok [(4, some (-6)), (9, some 14), (11, some 22)] := by decide +kernel
+
+/-- degree 0: every forecast is the constant minimising the squared error (the mean) -/
+theorem trend_deg0_eq_mean (ys : List Rat) (hn : 1 ≤ ys.length) (origin : Int) (fh : List Int) (hs : Sorted fh) (hne : fh ≠ []) :
+    ∃ a : Rat, (∀ a', sse (Trend.points ys) a 0 ≤ sse (Trend.points ys) a' 0) ∧
+      Trend.fitPredict 0 true (ys.map some) origin (.ints fh) true
+        = .ok (fh.map (fun h => (origin + (ys.length : Int) - 1 + h, some a))) := by
+  refine ⟨(Trend.olsCoef 0 true ys).1, (Lem.Trend.olsCoef_deg0 ys hn).2, ?_⟩
+  rw [Lem.Trend.trend_fitPredict_rel 0 true (by simp) ys hn origin fh hs hne, (Lem.Trend.olsCoef_deg0 ys hn).1]
+  simp
+
+/-- degree 1 without intercept: the least-squares line through the origin of the time axis -/
+theorem trend_noicpt_eq_ols (ys : List Rat) (hn : 2 ≤ ys.length) (origin : Int) (fh : List Int) (hs : Sorted fh) (hne : fh ≠ []) :
+    ∃ b : Rat, (∀ b', sse (Trend.points ys) 0 b ≤ sse (Trend.points ys) 0 b') ∧
+      Trend.fitPredict 1 false (ys.map some) origin (.ints fh) true
+        = .ok (fh.map (fun h => (origin + (ys.length : Int) - 1 + h, some (b * ((((ys.length : Int) - 1 + h : Int)) : Rat))))) := by
+  refine ⟨(Trend.olsCoef 1 false ys).2, (Lem.Trend.olsCoef_noicpt ys hn).2, ?_⟩
+  rw [Lem.Trend.trend_fitPredict_rel 1 false (by simp) ys (by omega) origin fh hs hne, (Lem.Trend.olsCoef_noicpt ys hn).1]
+  simp
+
+/-! ## statsmodels adapter -/
+
+/-- whatever the wrapped fitted model `sm` (position ↦ prediction) is, the adapter returns for every requested step `h`
+the wrapped model's prediction for that very time point `n − 1 + h`, labelled `T + h` — in-sample or out-of-sample,
+with or without gaps in the horizon -/
+theorem adapter_selects_requested_steps (sm : Int → Val) (n : Nat) (hn : 1 ≤ n) (origin : Int) (fh : List Int)
+    (hs : Sorted fh) (hne : fh ≠ []) :
+    Trend.adapterPredict sm n origin (.ints fh) true
+      = .ok (fh.map (fun h => (origin + (n : Int) - 1 + h, sm ((n : Int) - 1 + h)))) :=
+  Lem.Trend.adapterPredict_rel sm n hn origin fh hs hne
+
+example : Trend.adapterPredict (fun i => some ((10 * i : Int) : Rat)) 4 5 (.ints [-1, 2, 5]) true
+    = .ok [(7, some 20), (10, some 50), (13, some 80)] := by decide +kernel
+
 end SkVerif.C11
